@@ -1049,7 +1049,7 @@ func (s *State) evalForInteger(fe *ast.ForExpression, start *int64, end int64, n
 				return s.Errorf("for loop unexpected control type %s", r.ControlType.String())
 			}
 		default:
-			lastEval = nextEval
+			lastEval = object.CopyRegister(nextEval) // the value now, not the register whose value keeps changing.
 		}
 	}
 	return lastEval
@@ -1124,7 +1124,7 @@ func (s *State) evalForList(fe *ast.ForExpression, list object.Object, name stri
 				return s.Errorf("for loop unexpected control type %s", r.ControlType.String())
 			}
 		default:
-			lastEval = nextEval
+			lastEval = object.CopyRegister(nextEval) // the value now, not the register whose value keeps changing.
 		}
 	}
 	return lastEval
@@ -1161,7 +1161,7 @@ func (s *State) evalForExpression(fe *ast.ForExpression) object.Object {
 					return r
 				}
 			default:
-				lastEval = nextEval
+				lastEval = object.CopyRegister(nextEval)
 			}
 		case object.FALSE, object.NULL:
 			if log.LogVerbose() {
